@@ -41,6 +41,15 @@ def blobs(rng, n=16, size=16):
         out.append(bytes(rng.getrandbits(8) for _ in range(size)))
     return out[:n]
 
+def sblobs(rng, n=8):
+    """24-byte values of the type with its own Size instance: most share their first 8 bytes (what the declared struct covers)"""
+    heads = [bytes(8), bytes([1, 2, 3, 4, 5, 6, 7, 0x80])]
+    tails = [bytes(16), bytes([0] * 15 + [1]), bytes([1] + [0] * 15), bytes([0x80] * 16), bytes([0xff] * 16), bytes([0] * 8 + [1] + [0] * 7)]
+    out = [heads[0] + t for t in tails] + [heads[1] + tails[0], heads[1] + tails[3]]
+    while len(out) < n:
+        out.append(rng.choice(heads) + bytes(rng.getrandbits(8) for _ in range(16)))
+    return list(dict.fromkeys(out))[:n]
+
 def hx(b):
     return b.hex() if b else "-"
 
@@ -64,8 +73,8 @@ def scalar_cmp_exec(rng, kind):
     L, toks = define(kind, vals)
     extra = []
     if kind == "X":                       # plain structs of other types (12 and 5 bytes): ordered among themselves, never across
-        for sz in (12, 5):
-            d, tk = define("X", blobs(rng, 8, sz), len(toks) + len(extra) + 1 + (100 if sz == 5 else 50))
+        for sz in (12, 5, 24):
+            d, tk = define("X", blobs(rng, 8, sz) if sz != 24 else sblobs(rng, 10), len(toks) + len(extra) + 1 + (100 if sz == 5 else 50 if sz == 12 else 150))
             L += d; extra += all_pairs(tk)
             extra += ["cmp %d %d" % (toks[0], tk[0]), "cmp %d %d" % (tk[1], toks[1])]
     return ["reset"] + L + all_pairs(toks) + extra
@@ -119,7 +128,7 @@ def hash_exec(rng):
     kinds_of = {}
     nocopy = set()
     for kind, vals in (("I", ints(rng, 8)), ("F", floats(rng, 8)), ("S", strings(rng, 8)), ("Y", TYPES[:6]), ("X", blobs(rng, 6)),
-                       ("X", blobs(rng, 6, 12)), ("X", blobs(rng, 6, 5))):
+                       ("X", blobs(rng, 6, 12)), ("X", blobs(rng, 6, 5)), ("X", sblobs(rng, 8))):
         d, toks = define(kind, vals, t); L += d; t += len(toks)
         for tk in toks:
             g = [tk]
